@@ -17,7 +17,7 @@ PROPS = {
         level="exploration",
         technique="property-based testing (rapid) at two layers: generated Node CR records through buildIPMap/releasePodNotFound/assignIPFromLocalPool, and model-based stateful histories over the real ReconcileNode in a closed loop "
                   "(fake API server + controller-level cloud simulator); record invariants checked on every persisted Node CR",
-        rule="function layer: 1..4(6) interfaces x 1..6(10) pods with drawn statuses, kinds, address states and (partial) pre-bindings/reports; loop layer: drawn node configuration (stack, adapters, per-adapter limits, trunk/rdma flavor, pool, vSwitches, "
+        rule="function layer: 1..4(6) interfaces x 1..6(10) pods with drawn statuses, kinds, address states and (partial) pre-bindings/reports; loop layer: RDMA pods get a drawn container layout (1..3 containers plus 0..2 init containers, the aliyun/erdma limit on a non-empty subset, over-weighted: only the first container, only an init container, every container but the last) and whether a pod is an RDMA pod is judged from that intent, not from the scan in the code; drawn node configuration (stack, adapters, per-adapter limits, trunk/rdma flavor, pool, vSwitches, "
              "tag filter, EFLO, NodeRuntime object absent until the daemon first reports in 1/4 of the cases - then half of the pre-bindings are UID-less bindings of running pods), 0..3 pre-existing interfaces with partially bound records, then 1..22(40) actions out of create/delete/exit/cniAdd/reportDeleted/reconcile/fullSync/drift (address or interface removed / detached / added out of band; on EFLO nodes also: an existing address reported in a transient non-Available status for 1..3 observations, optionally with an immediate full sync)/restart/apiFault/cloudFault/burst, then a settle phase; "
              "non-trivial = a pass starts with >=2 interfaces holding >=2 idle candidates for >=2 pending pods, or a pod that reports an address is (to be) re-adopted, or a dual-stack pass where an interface has idle IPv4 but no idle IPv6; distinct = distinct scenario hash",
         assumptions=_assume,
